@@ -74,9 +74,9 @@ func cmdCheck(args []string) int {
 		*tier = t
 	}
 	if *timeout == 0 {
-		*timeout = 60
+		*timeout = 90
 		if *tier == "thorough" {
-			*timeout = 180
+			*timeout = 240
 		}
 	}
 	seed := 0
